@@ -104,7 +104,15 @@ impl FileSpec {
             Err(FlexiLoggerError::OutputBadFile)
         } else {
             Ok(FileSpec {
-                directory: p.parent().unwrap(/*cannot fail*/).to_path_buf(),
+                directory: {
+                    let parent = p.parent().unwrap(/*cannot fail*/);
+                    // a bare file name describes a file in the current folder
+                    if parent.as_os_str().is_empty() {
+                        PathBuf::from(".")
+                    } else {
+                        parent.to_path_buf()
+                    }
+                },
                 basename: p.file_stem().unwrap(/*ok*/).to_string_lossy().to_string(),
                 o_discriminant: None,
                 o_suffix: p.extension().map(|s| s.to_string_lossy().to_string()),
